@@ -7,7 +7,7 @@ registration of the parameter names when a `{` follows) on prototype-style param
 
     name ( specifiers declarator {, specifiers declarator} )
 
-every parameter named, its declarator a `DeclSkel.D` without grouping parentheses.
+every parameter named, its declarator any `DeclSkel.D` (grouping parentheses included).
 -/
 namespace PycModel.Params
 open PycModel PycModel.View PycModel.OperandId PycModel.FullExpr PycModel.TypeModify PycModel.DeclSkel PycModel.BuildDecl
@@ -23,7 +23,7 @@ structure Param where
 namespace Param
 def flat (p : Param) : List Tk := p.specs ++ p.d.flat
 def ntoks (p : Param) : Nat := p.specs.length + p.d.ntoks
-def fuel (p : Param) : Nat := max (p.specs.length + 1) (p.d.fuel + starsNtoks (dStars p.d) + 5) + 2
+def fuel (p : Param) : Nat := max (p.specs.length + 1) (p.d.fuel + p.d.ntoks + 5) + 2
 def di (n : Nat) (p : Param) : DI :=
   { ms := p.d.chain (n + p.specs.length), x := dName p.d, tco := dTco (n + p.specs.length) p.d, init := .none }
 /-- the `Decl` of the parameter -/
@@ -38,7 +38,6 @@ structure WFParam (p : Param) : Prop where
   specVals : SpecVals p.specs
   sawType : sawAfter false p.specs = true
   wfd : WFD p.d
-  noParen : NoParen p.d
 
 /-- what ends a parameter -/
 def EndsParam (k : String) : Prop := k = "COMMA" ∨ k = "RPAREN"
@@ -59,13 +58,13 @@ theorem param_ok (p : Param) (hwf : WFParam p) (s : PState) (stop : Tk) (rest : 
   obtain ⟨G, rfl⟩ : ∃ G, F = G + 1 := ⟨F - 1, by simp only [Param.fuel] at hF; omega⟩
   simp only [Param.fuel] at hF
   obtain ⟨k0, v0⟩ := stop
-  obtain ⟨k1, v1, r1, hd1, hkd⟩ := declarator_head hwf.wfd hwf.noParen
+  obtain ⟨k1, v1, r1, hd1, hkd⟩ := declarator_head hwf.wfd
   have hs0 : SeesT env s (p.specs ++ (p.d.flat ++ (k0, v0) :: rest)) := by simpa [Param.flat, List.append_assoc] using hs
   have hfo : FollowSpec (p.d.flat ++ (k0, v0) :: rest) := by
     intro k v r' h
     simp only [hd1, List.cons_append, List.cons.injEq, Prod.mk.injEq] at h
     rw [← h.1.1]
-    rcases hkd with rfl | rfl <;> decide
+    rcases hkd with rfl | rfl | rfl <;> decide
   obtain ⟨s1, h1, hs1, hi1⟩ := specs_loop p.specs {} false false none s _ G hwf.specToks hfo hs0 (by omega) (fun _ => rfl)
   have hne := sawAfter_ne_nil hwf.sawType
   have hsome : (if (false || !p.specs.isEmpty) = true then some (foldSpec s.idx {} p.specs) else none) =
@@ -78,7 +77,7 @@ theorem param_ok (p : Param) (hwf : WFParam p) (s : PState) (stop : Tk) (rest : 
   have hs1' : SeesT env s1 ((k1, v1) :: (r1 ++ (k0, v0) :: rest)) := by simpa [hd1] using hs1
   obtain ⟨s2, h2, hs2, hi2, _⟩ := peekType_spec s1 _ hs1'
   have hs2' : SeesT env s2 (p.d.flat ++ (k0, v0) :: rest) := by simpa [hd1] using hs2
-  obtain ⟨s3, h3, hs3, hi3⟩ := anyDeclarator_ok p.d hwf.wfd hwf.noParen s2 _ hs2'
+  obtain ⟨s3, h3, hs3, hi3⟩ := anyDeclarator_ok p.d hwf.wfd s2 _ hs2'
     (by intro k v r' h; simp only [List.cons.injEq, Prod.mk.injEq] at h
         rcases hstop with h' | h' <;> simp only at h' <;> rw [← h.1.1, h'] <;> exact ⟨by decide, by decide⟩) G (by omega) true true
   obtain ⟨p0, names, htn, hok⟩ := specOK_fold p.specs s.idx hwf.specToks hwf.specVals hwf.sawType
@@ -87,7 +86,7 @@ theorem param_ok (p : Param) (hwf : WFParam p) (s : PState) (stop : Tk) (rest : 
   rw [e2] at h3
   have hstart : startsDeclarator false s1 = .ok true s2 := by
     simp only [startsDeclarator, DeclSkel.bnd, h2, List.head?_cons, Option.map_some, DeclSkel.pur]
-    rcases hkd with rfl | rfl <;> rfl
+    rcases hkd with rfl | rfl | rfl <;> rfl
   have htyne : (foldSpec s.idx {} p.specs).type.isEmpty = false := by rw [hok.type_eq]; rfl
   have hinfo : ({ decl := chainVal (p.d.chain (s.idx + p.specs.length)) (p.d.td (s.idx + p.specs.length)) } : DeclInfo) =
       (p.di s.idx).info := by simp [DI.info, DI.raw, Param.di, td_eq]
